@@ -253,14 +253,15 @@ pub enum VerifWalEnd {
 	Other(String),
 }
 
-/// Reads every record of one segment file with the crate's `Reader`.
-pub fn wal_read_segment(path: &Path) -> std::io::Result<(Vec<Vec<u8>>, VerifWalEnd)> {
+/// Reads every record of one segment file with the crate's `Reader`; each
+/// record comes with the file offset just past it.
+pub fn wal_read_segment(path: &Path) -> std::io::Result<(Vec<(Vec<u8>, u64)>, VerifWalEnd)> {
 	let file = std::fs::File::open(path)?;
 	let mut reader = Reader::new(file);
 	let mut out = Vec::new();
 	loop {
 		match reader.read() {
-			Ok((rec, _off)) => out.push(rec.to_vec()),
+			Ok((rec, off)) => out.push((rec.to_vec(), off)),
 			Err(crate::wal::Error::IO(e)) if e.kind() == std::io::ErrorKind::UnexpectedEof => {
 				return Ok((out, VerifWalEnd::Eof));
 			}
